@@ -190,11 +190,16 @@ pub fn get_solidity_version_from_source_unit(source_unit: SourceUnit) -> Option<
                 continue;
             }
 
+            //A version that cannot be read (ex. a component that does not fit in an i32) is no version
             let minor_major_patch_version =
-                get_solidity_major_minor_patch_version(&solidity_version_literal.string)
+                match get_solidity_major_minor_patch_version(&solidity_version_literal.string)
                     .iter()
-                    .map(|f| f.parse::<i32>().unwrap())
-                    .collect::<Vec<i32>>();
+                    .map(|f| f.parse::<i32>().ok())
+                    .collect::<Option<Vec<i32>>>()
+                {
+                    Some(version) if version.len() == 3 => version,
+                    _ => return None,
+                };
 
             return Some((
                 minor_major_patch_version[0],
@@ -223,7 +228,7 @@ pub fn get_solidity_patch_version(solidity_version_str: &str) -> i32 {
 pub fn get_solidity_major_minor_patch_version(solidity_version_str: &str) -> Vec<&str> {
     //get the minor.patch version from the solidity semantic version
     let mut major_minor_patch_version_str = "0.0.0";
-    let major_minor_patch_version_re = Regex::new(r"\d+\.\d+\.+\d+").unwrap();
+    let major_minor_patch_version_re = Regex::new(r"\d+\.\d+\.\d+").unwrap();
     for capture in major_minor_patch_version_re
         .captures_iter(solidity_version_str)
         .into_iter()
